@@ -67,6 +67,12 @@ def dec(v):
             return Pt(*[dec(i) for i in v['__nt__']])
         if '__dq__' in v:
             return collections.deque(dec(i) for i in v['__dq__'])
+        if '__fr__' in v:
+            import fractions
+            return fractions.Fraction(v['__fr__'][0], v['__fr__'][1])
+        if '__dc__' in v:
+            import decimal
+            return decimal.Decimal(v['__dc__'])
         if '__t__' in v:
             return tuple(dec(i) for i in v['__t__'])
         if '__b__' in v:
@@ -115,6 +121,10 @@ def enc(v):
         return {'__nt__': [enc(i) for i in v]}
     if isinstance(v, collections.deque):
         return {'__dq__': [enc(i) for i in v]}
+    if type(v).__name__ == 'Fraction':
+        return {'__fr__': [v.numerator, v.denominator]}
+    if type(v).__name__ == 'Decimal':
+        return {'__dc__': str(v)}
     if isinstance(v, tuple):
         return {'__t__': [enc(i) for i in v]}
     if isinstance(v, list):
